@@ -252,8 +252,23 @@ pub trait Translator {
             {
                 // get the entry index for the first/head block in the successor
                 let (block_entry, _) = block_indices[successor_address];
-                // check for duplicate edges
-                if control_flow_graph.edge(block_exit, block_entry).is_ok() {
+                // An edge between these two blocks exists already (a conditional
+                // branch whose target is also its fall-through address, or
+                // overlapping block translation results). Parallel edges are
+                // alternatives: widen the guard of the existing edge to the
+                // disjunction of the guards instead of dropping this one.
+                if let Ok(edge) = control_flow_graph.edge_mut(block_exit, block_entry) {
+                    if let Some(existing) = edge.condition_mut() {
+                        match successor_condition {
+                            Some(condition) => {
+                                if *existing != *condition {
+                                    *existing =
+                                        Expression::or(existing.clone(), condition.clone())?;
+                                }
+                            }
+                            None => *existing = expr_const(1, 1),
+                        }
+                    }
                     continue;
                 }
                 match successor_condition {
